@@ -120,6 +120,60 @@ pub fn catalogue() -> Vec<Vec<u8>> {
     v
 }
 
+/// does the byte string contain an array header whose element constructor has no data?
+pub fn has_zero_width_array(b: &[u8]) -> bool {
+    let zw = |c: u8| matches!(c, 0x40 | 0x41 | 0x42 | 0x43 | 0x44 | 0x45);
+    for i in 0..b.len() {
+        if b[i] == 0xe0 && i + 3 < b.len() && zw(b[i + 3]) {
+            return true;
+        }
+        if b[i] == 0xf0 && i + 9 < b.len() && zw(b[i + 9]) {
+            return true;
+        }
+    }
+    false
+}
+
+/// `n` nested list32 headers around a null: valid, 9n+1 bytes
+pub fn nest(n: usize) -> Vec<u8> {
+    let mut b = Vec::with_capacity(9 * n + 1);
+    for _ in 0..n {
+        b.extend_from_slice(&[0xd0, 0, 0, 0xff, 0xff, 0, 0, 0, 1]);
+    }
+    b.push(0x40);
+    b
+}
+
+/// Child-process entry: decode `nest(n)` on a thread with the default 2 MiB stack of a
+/// spawned thread (what a tokio worker has) and report; a stack overflow kills the child.
+pub fn deep_child(n: usize) {
+    let h = std::thread::spawn(move || {
+        let b = nest(n);
+        let r = serde_amqp::from_slice::<Value>(&b);
+        r.is_ok()
+    });
+    match h.join() {
+        Ok(ok) => println!("deep {} {}", n, if ok { "ok" } else { "err" }),
+        Err(_) => println!("deep {} panic", n),
+    }
+}
+
+/// Parent side: run the child for increasing depths; returns the first depth that kills it
+pub fn deep_probe(depths: &[usize]) -> Vec<(usize, String)> {
+    let exe = std::env::current_exe().unwrap();
+    let mut res = Vec::new();
+    for &d in depths {
+        let o = std::process::Command::new(&exe).arg("deepchild").arg(d.to_string()).output();
+        let s = match o {
+            Ok(o) if o.status.success() => String::from_utf8_lossy(&o.stdout).trim().to_string(),
+            Ok(o) => format!("deep {} killed({:?})", d, o.status.code()),
+            Err(e) => format!("deep {} spawn-error {}", d, e),
+        };
+        res.push((d, s));
+    }
+    res
+}
+
 pub fn run(seed: u64, n: u64, thorough: bool, corpus: &[String], dir: &str) {
     quiet_panics();
     let mut out = Outputs::new(dir);
@@ -143,7 +197,7 @@ pub fn run(seed: u64, n: u64, thorough: bool, corpus: &[String], dir: &str) {
             match catch_unwind(AssertUnwindSafe(|| serde_amqp::serialized_size(v))) {
                 Ok(Ok(sz)) if sz == bytes.len() => {}
                 other => {
-                    let class = if known { "c20-size-known-array-class" } else { "c20-size" };
+                    let class = if has_described_array_elem(v) { "c20-size-described-array-elems" } else { "c20-size" };
                     out.violation(class, &format!("{}: serialized_size = {:?}, to_vec length = {}", class, other.map(|x| x.ok()), bytes.len()), &line);
                 }
             }
@@ -215,7 +269,18 @@ pub fn run(seed: u64, n: u64, thorough: bool, corpus: &[String], dir: &str) {
     }
     for b in dec_inputs {
         let line = format!("dec {}", hex(&b));
+        let base = crate::alloc::reset_peak();
         let res = impl_dec(&b);
+        let peak = crate::alloc::peak_since(base);
+        // C04: memory in proportion to the input.  The bound is generous (the decoded value
+        // tree is larger than its encoding by a constant factor); zero-width array elements
+        // (null/true/false/uint0/ulong0/list0 constructors) are the known-finding class.
+        if peak > 16 * 1024 + 512 * b.len() {
+            let zero_width_array = has_zero_width_array(&b);
+            let class = if zero_width_array { "c04-alloc-zero-width-array" } else { "c04-alloc" };
+            out.violation(class, &format!("{}: decoding {} bytes ({}...) allocated {} bytes", class, b.len(), &hex(&b)[..hex(&b).len().min(40)], peak), &line);
+        }
+        out.add("dec_peak_alloc_total", peak as u64);
         if res == "PANIC" {
             out.violation("c04-panic", &format!("c04-panic: from_slice::<Value> panicked on {}", hex(&b)), &line);
             out.count("dec_panic");
@@ -236,6 +301,19 @@ pub fn run(seed: u64, n: u64, thorough: bool, corpus: &[String], dir: &str) {
             out.count("dec_err");
         }
         out.case(&line, &res);
+    }
+    // C04: recursion depth.  Valid inputs of growing nesting depth are decoded in a child process.
+    let depths: &[usize] = if thorough { &[10, 100, 1000, 5000, 20000, 100000] } else { &[10, 100, 1000, 7000] };
+    for (d, s) in deep_probe(depths) {
+        let line = format!("deep {}", d);
+        out.count("deep_probes");
+        if s.contains("killed") || s.contains("panic") {
+            out.violation(
+                "c04-stack-depth",
+                &format!("c04-stack-depth: {} nested list32 headers ({} bytes) exhaust the stack of a worker thread: {}", d, 9 * d + 1, s),
+                &line,
+            );
+        }
     }
     out.finish(dir);
 }
